@@ -58,7 +58,14 @@ class Judge:
         self.res = res
         self.n = 0
         self.nontrivial = 0
+        self.samples = []
+        self.reload = True  # also load the re-saved file back and compare (skipped in the per-bit families)
         self.counts = res.counts
+
+    def note(self, what, data, outcome):
+        # a few judged inputs for the evidence file
+        if len(self.samples) < 3 and (self.n % 37 == 5 or not self.samples):
+            self.samples.append({"fault": what, "file_hex": data[:48].hex() + ("..." if len(data) > 48 else ""), "bytes": len(data), "outcome": outcome})
 
     def count(self, key):
         self.counts[key] = self.counts.get(key, 0) + 1
@@ -81,6 +88,7 @@ class Judge:
             else:
                 self.count("rejected:gtirb")
                 self.nontrivial += 1
+                self.note(what, data, "rejected: %s" % type(e).__name__)
             if expect == "ValueError" and not isinstance(e, ValueError):
                 self.res.fail("C17:%s-not-ValueError:%s" % (what.split(" ")[0], type(e).__name__), "%s: %r" % (what, e))
             if must_load:
@@ -88,6 +96,7 @@ class Judge:
             return None
         self.count("accepted")
         self.nontrivial += 1
+        self.note(what, data, "accepted")
         if expect == "ValueError":
             self.res.fail("C17:%s-accepted" % what.split(" ")[0], what)
             return ir
@@ -115,7 +124,7 @@ class Judge:
             if d:
                 self.res.fail("C17:accepted-ir-differs-from-file", "%s: %s" % (what, d))
         try:
-            problems = coherence.check(g, ir, probes)
+            problems = coherence.check(g, ir, probes, reload=self.reload)
         except pbt.CaseTimeout:
             raise
         except Exception as e:  # noqa
@@ -283,6 +292,7 @@ def run_case(case):
     res.tag("mode:" + mode)
     J = Judge(g, res)
     J.judge(data, "unmodified seed file", must_load=True)
+    J.reload = mode not in ("flip", "byte")
     n = len(data)
     if mode == "trunc":
         for cut in range(n):
@@ -337,21 +347,49 @@ def run_case(case):
             J.judge(data + data[8:], "seed message twice")
     res.evals = J.n
     res.sub_nontrivial = J.nontrivial
+    res.sample = {"seed_file_bytes": n, "family": mode, "judged": J.n, "examples": J.samples}
     res.nontrivial = False
     return res
+
+
+def prune(spec):
+    """keep a seed file small (a few hundred bytes): at most 2 sections, 2
+    intervals per section, 2 blocks and 2 expressions per interval, 3 symbols,
+    2 proxies, 3 edges - every kind of node and reference survives"""
+    for m in spec["modules"]:
+        m["sections"] = m["sections"][:2]
+        m["symbols"] = m["symbols"][:3]
+        m["proxies"] = m["proxies"][:2]
+        for s_ in m["sections"]:
+            s_["intervals"] = s_["intervals"][:2]
+            for bi in s_["intervals"]:
+                bi["blocks"] = bi["blocks"][:2]
+                bi["exprs"] = bi["exprs"][:2]
+    spec["edges"] = spec["edges"][:3]
+    return spec
 
 
 def strategy():
     from hypothesis import strategies as st
 
-    return st.fixed_dictionaries(
-        {
-            "spec": st.one_of(specmod.specs(max_modules=2, aux=False), specmod.specs(max_modules=2, aux=False), specmod.specs(max_modules=2, max_aux_depth=1)),
-            "mode": st.integers(0, len(MODES) - 1),
-            "vals": st.lists(st.integers(0, 2**32 - 1), min_size=3, max_size=3),
-            "blobs": st.lists(st.lists(st.integers(0, 255), max_size=40), max_size=4),
+    small_specs = specmod.specs(max_modules=1, aux=False)
+    any_specs = st.one_of(specmod.specs(max_modules=2, aux=False), specmod.specs(max_modules=2, max_aux_depth=1))
+
+    @st.composite
+    def case(draw):
+        mode = draw(st.integers(0, len(MODES) - 1))
+        # the per-byte families cost 3-8 loads per byte of the file: small files
+        spec = draw(small_specs if MODES[mode] in ("flip", "byte") else any_specs)
+        if MODES[mode] in ("flip", "byte"):
+            spec = prune(spec)
+        return {
+            "spec": spec,
+            "mode": mode,
+            "vals": draw(st.lists(st.integers(0, 2**32 - 1), min_size=3, max_size=3)),
+            "blobs": draw(st.lists(st.lists(st.integers(0, 255), max_size=40), max_size=4)),
         }
-    )
+
+    return case()
 
 
 def run_fuzz_job(job):
@@ -447,9 +485,9 @@ def replay(doc):
 
 
 def jobs(tier, seed):
-    n, shards = (48, 8) if tier == "quick" else (1600, 16)
+    n, shards = (72, 8) if tier == "quick" else (1600, 16)
     out = [{"name": "seeds-%d" % k, "kind": "seeds", "n": n // shards, "seed": seed * 1000 + 170 + k,
-            "shrink": 60 if tier == "quick" else 300} for k in range(shards)]
+            "shrink": 12 if tier == "quick" else 80} for k in range(shards)]
     if tier == "thorough":
         # coverage-guided campaign: 8 processes, half of them from an empty corpus
         for k in range(8):
